@@ -8,6 +8,28 @@ HERE = os.path.dirname(os.path.dirname(os.path.abspath(__file__)))
 
 # id -> (level, technique, text, note, design_ref)
 CHECKS = {
+    'C10': ('exploration',
+            'Hypothesis generation of experiments (instruments x bead rows x sample rows x units); differential: '
+            'Excel workflow result == hand composition of the documented library calls (exact), statistics == '
+            'library statistics, histogram identities',
+            'For generated experiments the samples returned by process_samples_table and the bead samples / '
+            'fitted parameters returned by process_beads_table must have exactly the public fingerprint of the '
+            'hand-written composition (to_rfi, units handling incl. letter case and blanks, start_end(250,100), '
+            'high_low on scatter+reported channels for integer data, density2d); statistics columns must equal '
+            'FlowCal.stats on the gated sample (geometric ones on positive events with a note), event count and '
+            'acquisition time those of the gated sample, histogram rows np.histogram over hist_bins edges.',
+            'Trusted: the hand composition in pbt/props/c10.py; library primitives are checked by C03-C08, C12.',
+            'DESIGN.md section 4, C10'),
+    'C11': ('fault_enumeration',
+            'exhaustive assignment of documented row-fault kinds to tables of 1-2 rows (samples: 13 kinds, beads: '
+            '6 kinds) + Hypothesis for 3-5 rows; oracle: row-level error for each faulty row, healthy row == its '
+            'single-row run, order, notes, histogram skips',
+            'All 183 sample tables and 43 bead tables of <=2 rows over the documented fault kinds, plus sampled '
+            'tables of 3..5 rows, must return (no abort), record an ExcelUIException for exactly the faulty rows, '
+            'give every healthy cell-sample row the public fingerprint of its single-row run, keep table order, '
+            "write 'ERROR:' notes with empty statistics for faulty rows only, and skip them in the histogram table.",
+            'Trusted: the fixture experiment and the list of documented fault kinds (only those are injected).',
+            'DESIGN.md section 4, C11'),
     'C02': ('exploration',
             'Hypothesis generation of synthetic bead samples from a known bead law; ground-truth labels, true '
             'curve (10 %), fit on true statistics, metamorphic relations (event order, channel count, seed)',
